@@ -214,8 +214,9 @@ fn write_maybe_rpx_dimension(
     let unit_str: &str = &unit;
     if unit_str == "rpx" {
         let new_value = value * 100. / ss.options.rpx_ratio;
-        let new_int_value = if (new_value.round() - new_value).abs() <= f32::EPSILON {
-            Some(new_value.round() as i32)
+        // (an integer value is printed from the integer, so it must be the exact value and fit in)
+        let new_int_value = if new_value.round() == new_value && new_value.abs() < i32::MAX as f32 {
+            Some(new_value as i32)
         } else {
             None
         };
